@@ -9,7 +9,7 @@ Normalisation taken from docs/source/reference/verilog_support.rst: ports of und
 written as inout ("defaults to inout on write"), so UNDEFINED before == INOUT after.  From IEEE 1364 3.7.1: the leading
 backslash of an escaped identifier is not part of the name, so a/b (flatten) == \\a/b (re-read).
 """
-import sys, json, os, random
+import sys, json, os, random, copy
 import rtcommon as R
 import render_verilog as V
 
@@ -91,25 +91,72 @@ def roundtrip(run, n, t):
         c1 = plain_names(undefined_as_inout(canon(m)))
     except Exception as e:
         return [(PID + '.malformed', type(e).__name__, 'the re-read netlist cannot be walked: %r' % e)]
-    fails = [(a, t + ':' + b, c) for a, b, c in R.failures_from_diff(PID, R.diff(c0, c1))]
+    fails = rebased_alias_ports(c0, c1, t)
+    fails += [(a, t + ':' + b, c) for a, b, c in R.failures_from_diff(PID, R.diff(c0, c1))]
     fails += R.wellformed(m, PID)
     return fails
 
 
-def case_generated(run, ad, style, t, alias_defs=()):
-    text, plan = V.render(ad, style)
-    path = run.path('.v')
-    with open(path, 'w') as f:
-        f.write(text)
-    n, f = R.try_parse(path, PID)
-    if f:
-        return []        # refusal of generated text is C06's business
-    if alias_defs:
-        why = misread_aliases(n, ad, plan, alias_defs)
-        if why:
-            run.out['skipped'].append({'why': 'vector-net header alias not read as written (outside the supported subset)', 'where': why})
-            return []
-    return roundtrip(run, n, t)
+def rebased_alias_ports(c0, c1, t):
+    """One cause of a changed base index gets a check name of its own: a port based at 0 comes back with the same width but based
+    at the lower index of a vector net that carries some of its pins (the reader gives an aliased port the declared range of a net
+    of its alias, the last one declared).  Reported once per port as C04.alias-port-rebased; c1 is then put back to base 0 (the
+    port's bit numbers in its own nets and in the nets of every module that instantiates it), so that whatever else differs is
+    still reported under the general checks."""
+    out = []
+    for ln, l in c1['libs'].items():
+        for dn, d1 in l['defs'].items():
+            d0 = c0['libs'].get(ln, {}).get('defs', {}).get(dn)
+            for pn, p1 in d1['ports'].items():
+                p0 = d0['ports'].get(pn) if d0 else None
+                k = p1['base']
+                if not p0 or p0['base'] != 0 or k == 0 or p0['width'] != p1['width']:
+                    continue
+                on = set(key[:key.rfind('[')] for key, eps in d1['nets'].items() if any(ep[0] == 'port' and ep[1] == pn for ep in eps))
+                via = sorted(c for c in on if d1['cables'].get(c, {}).get('base') == k)
+                if not via:
+                    continue
+                p1['base'] = 0
+                for l2 in c1['libs'].values():
+                    for d2 in l2['defs'].values():
+                        users = set(i for i, x in d2['insts'].items() if x['ref'] == [ln, dn])
+                        for key, eps in d2['nets'].items():
+                            for ep in eps:
+                                if (d2 is d1 and ep[0] == 'port' and ep[1] == pn) or (ep[0] == 'inst' and ep[1] in users and ep[2] == pn):
+                                    ep[-1] -= k
+                            d2['nets'][key] = sorted(eps, key=json.dumps)
+                out.append((PID + '.alias-port-rebased', 'declared-range-of-alias-net',
+                            '%s: port %s.%s [%d:0] of the netlist written comes back as [%d:%d], the range start of net %s that its header alias names'
+                            % (t, dn, pn, p0['width'] - 1, k + p0['width'] - 1, k, via[0])))
+    return out
+
+
+def case_generated(run, ad, style, t, widened=(), rp=None):
+    """ad: the design of gen_hier; widened: [(design with vector-net header aliases, names of the modules changed), ...].  The first
+    widened design the reader takes for what its text says is the one that is run; when there is none the plain design is."""
+    for cand, alias_defs in list(widened) + [(ad, ())]:
+        text, plan = V.render(cand, style)
+        path = run.path('.v')
+        with open(path, 'w') as f:
+            f.write(text)
+        n, f = R.try_parse(path, PID)
+        if f:
+            if alias_defs:
+                continue
+            return []        # refusal of generated text is C06's business
+        if alias_defs:
+            why = misread_aliases(n, cand, plan, alias_defs)
+            if why:
+                run.out['misread_aliases'] = run.out.get('misread_aliases', 0) + 1
+                if len(run.out['skipped']) < 10:
+                    run.out['skipped'].append({'why': 'vector-net header alias not read as written (outside the supported subset)', 'where': why})
+                continue
+        if rp is not None:
+            rp['ad'], rp['alias_defs'] = cand, list(alias_defs)
+        if alias_defs:
+            run.out['vector_alias_cases'] = run.out.get('vector_alias_cases', 0) + 1
+        return roundtrip(run, n, t)
+    return []
 
 
 def misread_aliases(n, ad, plan, alias_defs):
@@ -155,20 +202,28 @@ def main():
         if rp.get('file'):
             run.case(R.jhash(rp['file'], rp['transform']), True, None, lambda: case_file(run, rp['file'], rp['transform']), rp, limit=400)
         else:
-            run.case(R.jhash(rp['ad'], rp['style'], rp['transform']), True, None, lambda: case_generated(run, rp['ad'], rp['style'], rp['transform'], rp.get('alias_defs') or ()), rp)
+            w = [(rp['ad'], rp['alias_defs'])] if rp.get('alias_defs') else []
+            run.case(R.jhash(rp['ad'], rp['style'], rp['transform']), True, None, lambda: case_generated(run, rp['ad'], rp['style'], rp['transform'], w), rp)
         return run.finish()
     for seed in cfg.get('seeds', []):
         ad = R.gen_hier(seed, 'verilog')
-        # "aliased header ports": besides gen_hier's single-bit breakouts onto 1-bit nets, half of the designs get aliases onto
-        # bits of vector nets - the net named like the port (permuted / re-based / sub-range / shared by two ports) or another one
-        al = sorted(set(x[0] for x in V.alias_shapes(ad, random.Random('c04-alias:%s' % seed), **(cfg.get('alias_shapes') or {}))))
+        # "aliased header ports": besides gen_hier's single-bit breakouts onto 1-bit nets, aliases onto bits of vector nets - the net
+        # named like the port (permuted / re-based / sub-range / shared by two ports) or other ones.  Up to three differently
+        # widened variants of the design; case_generated runs the first one the reader reads as written, else the plain design.
+        widened = []
+        for k in range(cfg.get('alias_variants', 3)):
+            cand = copy.deepcopy(ad)
+            made = V.alias_shapes(cand, random.Random('c04-alias:%s:%d' % (seed, k)), **(cfg.get('alias_shapes') or {}))
+            if made:
+                widened.append((cand, sorted(set(x[0] for x in made))))
         for v in range(cfg.get('styles', 1)):
             style = V.make_style(seed, v)
             style.update(cfg.get('style_override') or {})
             for t in ['none', TRANSFORMS[1 + (seed + v) % 3]]:
-                run.case(R.jhash(ad, style, t), nontrivial(ad), {'seed': seed, 'transform': t, 'features': R.ad_features(ad)} if t != 'none' else None,
-                         lambda: case_generated(run, ad, style, t, al),
-                         {'kind': 'verilog-rt', 'seed': seed, 'ad': ad, 'style': style, 'transform': t, 'alias_defs': al})
+                rp = {'kind': 'verilog-rt', 'seed': seed, 'ad': ad, 'style': style, 'transform': t, 'alias_defs': []}
+                run.case(R.jhash(ad, [w[0] for w in widened], style, t), nontrivial(ad),
+                         {'seed': seed, 'transform': t, 'features': R.ad_features(ad)} if t != 'none' else None,
+                         lambda: case_generated(run, ad, style, t, widened, rp), rp)
     if cfg.get('corners'):
         for name, ad in R.corner_ads('verilog'):
             for v in range(3):
